@@ -114,6 +114,10 @@ class Module:
 
             if "contextmanager" in source:
                 self.inlined += expand_context_managers(self.tree, set(KNOWN.get(name, [])))
+            if "__enter__" in source:
+                from .inline import expand_cm_classes
+
+                self.inlined += expand_cm_classes(self.tree, set(KNOWN.get(name, [])) | renamed_known)
             if "yield" in source:
                 from .inline import collect_generators
 
